@@ -66,8 +66,8 @@ static void run_case(CaseCtx& c)
         if (cfg.extrapolation == 2)
             cfg.extrapolation = 1;
     }
-    int history = rng.range(0, 2); // 0 fresh, 1 polluted work vectors, 2 reused after a previous solve
-    static const char* hk[] = {"fresh", "polluted", "reused"};
+    int history = rng.range(0, 3); // 0 fresh, 1 polluted work vectors, 2 reused after a previous solve, 3 start-up options set after setup()
+    static const char* hk[] = {"fresh", "polluted", "reused", "options-after-setup"};
     cfg.describe(c.obs.params);
     c.obs.params.str("history", hk[history]).str("mode", mode <= 1 ? "two-level-zero-cycles" : (accuracy ? "accuracy" : "nested-iteration"));
     c.announce(std::string("levels") + std::to_string(cfg.maxLevels) + "/iters" + std::to_string(cfg.fmg_iters) + "/ex" + std::to_string(cfg.extrapolation));
@@ -175,6 +175,18 @@ static void run_case(CaseCtx& c)
             g->solve();
             g->maxIterations(0);
             u2 = fmg_start(*g);
+        }
+        else if (history == 3) {
+            // the start-up cycle type and count are solve-time options: an object set up with other values and given the
+            // final ones afterwards must start exactly like one that had them from the beginning
+            SolverConfig other = cfg;
+            other.fmg_iters = (cfg.fmg_iters + rng.range(1, 3)) % 4;
+            other.fmg_cycle = (cfg.fmg_cycle + rng.range(0, 2)) % 3;
+            std::unique_ptr<GMGPolar> g2 = other.make_api();
+            g2->setup();
+            g2->FMG_iterations(cfg.fmg_iters);
+            g2->FMG_cycle(static_cast<MultigridCycleType>(cfg.fmg_cycle));
+            u2 = fmg_start(*g2);
         }
         else {
             std::unique_ptr<GMGPolar> g2 = cfg.make_api();
